@@ -442,6 +442,13 @@ def run(rep, repo, tier):
     if cls == "bernoulli":
       for alpha in (None, F(2), "auto"):
         yield dict(alpha=alpha)
+    if cls == "binary":
+      # options that only matter once the adjustment has switched the
+      # quantizer to a power-of-two scale
+      for use01, (mn, mx) in itertools.product(
+          (False, True), ((-2, 3), (None, 0), (0, None))):
+        yield dict(use_01=use01, alpha=None, min_po2_exponent=mn,
+                   max_po2_exponent=mx)
   n7 = rule_installed(rep, repo, ("binary", "ternary", "stochastic_binary",
                                   "stochastic_ternary", "bernoulli"), "R7",
                       tier, installed)
